@@ -44,6 +44,9 @@ type Env struct {
 	cur    *node.Chain
 	// GhostHeight is the chain height the next harness-signed certificate of GhostID claims
 	GhostHeight uint64
+	// ProposerView is the block result the proposer's mempool built for the block of the last step (the path on which
+	// failing transactions are executed and dropped); the BlockRecord carries the result of validating the finished block
+	ProposerView *lib.BlockResult
 }
 
 func params(chain uint64, o Opts) *fsm.Params {
@@ -146,6 +149,11 @@ func (e *Env) step(ch *node.Chain, txs [][]byte) (*node.BlockRecord, error) {
 	p, err := ch.Propose(0, txs, nil)
 	if err != nil {
 		return nil, fmt.Errorf("propose: %v", err)
+	}
+	e.ProposerView = nil
+	if cp, ok := ch.Nodes[0].C.GetProposalBlockFromMempool(); ok && cp != nil && cp.BlockResult != nil && cp.Block != nil &&
+		cp.Block.BlockHeader != nil && cp.Block.BlockHeader.Height == p.Block.BlockHeader.Height {
+		e.ProposerView = cp.BlockResult
 	}
 	res, err := ch.Validate(0, p, nil)
 	if err != nil {
@@ -251,3 +259,23 @@ func (e *Env) GhostCert(res *lib.CertificateResult, rootHeight uint64, signers f
 
 // Pick returns a user key.
 func (e *Env) Pick(rng *rand.Rand) crypto.PrivateKeyI { return e.Users[rng.Intn(len(e.Users))] }
+
+// FailureOf returns the error the node's mempool recorded when it executed and dropped the transaction.
+func FailureOf(n *node.Node, tx []byte) (string, bool) {
+	if !n.C.IsFailedTx(crypto.HashString(tx)) {
+		return "", false
+	}
+	page, err := n.C.GetFailedTxsPage("", lib.PageParams{PageNumber: 1, PerPage: 5000})
+	if err != nil || page == nil {
+		return "", true
+	}
+	if list, ok := page.Results.(*lib.FailedTxs); ok && list != nil {
+		h := crypto.HashString(tx)
+		for _, f := range *list {
+			if f != nil && f.Hash == h && f.Error != nil {
+				return f.Error.Error(), true
+			}
+		}
+	}
+	return "", true
+}
